@@ -223,8 +223,11 @@ def run {α} [DecidableEq α] (c : Codec α) (io : Io α) (op : String) (args : 
     | some bs => opRt c io bs
     | none => "bad-op"
   | "val", toks => opVal c io toks
+  -- a `cat` listing ends in the harness' iterator-protocol verdict on NlriIter (harness/src/common.rs
+  -- iter_protocol); the model's iterator is a `next` sequence, every default consumption of which
+  -- observes `collect` (Rc/Lemmas/IterProto.lean): constant `proto=ok`
   | "cat", [_, h] => match bytesOfHex h with
-    | some bs => opCat c io bs
+    | some bs => let r := opCat c io bs; if r.startsWith "ok" then r ++ " proto=ok" else r
     | none => "bad-op"
   | _, _ => "bad-op"
 
